@@ -141,6 +141,7 @@ func runC02(c *Ctx, tier string) {
 
 func runC03(c *Ctx, tier string) {
 	p := c.P
+	runConstColumnByteIdentity(c, "C03-C1")
 	c.Rule("C03-K1", "encoder / metadata / builder / loader tables: NewEncoder covers every complex zed type (explicitly, or as a primitive by IsPrimitiveType), NewBuilder and the vector cache's shadow construction cover every vng.Metadata implementer")
 	c.Rule("C03-B1", "dictionary selectors are one byte: MaxDictSize <= 256 and the dictionary is abandoned when it grows beyond MaxDictSize")
 	c.Rule("C03-O1", "section order in Writer.finalize: metadata stream ended before its size is taken; header, then metadata, then data")
